@@ -174,8 +174,8 @@ theorem over_limit_info_refused (s0 : St) (hi : s0.info = false) (hn : s0.cfg.n 
 /-- **over_limit_info_refused, step form.**  The whole step (handler, workers, parked message) in which a
 metadata download completes with the right hash, on a torrent above the piece-count limit (or private), from
 any state of the lifecycle invariant: `info` keeps its value and the torrent ends `Stopped` — or `Stopping`
-behind a tracker that does not answer — with nothing running.  Hypotheses as for `stop_reaches_stopped`: no
-panic so far, no verify command pending. -/
+behind a tracker that does not answer — with nothing running.  Hypotheses: no panic so far, no verify command
+pending (this stop is the loop's own, not the stop command, which alone withdraws a verification request). -/
 theorem over_limit_metadata_stops (s : St) (p : Parked) (kn : Nat → Bool) (d : IDl) (k i len : Nat) (good : Bool)
     (l : Life s) (hpan : s.panicked = none) (hdv : s.doVerify = false)
     (hk : (s.findPeer k).isSome = true) (hc : HmdComplete (s, []) d k i len good)
